@@ -1,9 +1,9 @@
-(* Lemmas on the numpy combinators of Lib/NpArr.v at the ranks the filter kernels use (2 and 4):
+(* Lemmas on the numpy combinators of Lib/NpNd.v at the ranks the filter kernels use (2 and 4):
    what each operation yields -- error flag, shape, element at every in-range index -- from what
    its operands hold.  [is4 X a b c d g]: X is a well-formed a x b x c x d array whose element
    (i, j, k, l) is g i j k l; [is2] likewise. *)
 From Coq Require Import ZArith QArith List Bool Lia.
-From Pandora Require Import Lib.Arr Lib.NpArr.
+From Pandora Require Import Lib.Arr Lib.NpNd.
 Import ListNotations.
 Open Scope Z_scope.
 
